@@ -209,6 +209,14 @@ func suiteTransport(t *testing.T, cfg cfgT) {
 				}
 				qs = append(qs, &twin)
 			}
+			for i, q := range qs { // see costBudget: twins, motif and repeated entries are probed as well
+				if ee.costly(q, depth) {
+					cheap := *q
+					cheap.Relation = "nope"
+					qs[i] = &cheap
+					out.stat("costly")
+				}
+			}
 			n = len(qs)
 			var es, parts []string
 			req := &rts.BatchCheckRequest{MaxDepth: int32(depth)}
